@@ -43,6 +43,11 @@ pub struct RandomCfg {
     pub close_at_end: bool,
     /// deterministic sweeps: the frames to send, in order (bytes, class decided from the bytes by the harness)
     pub fixed: Option<VecDeque<(Vec<u8>, String)>>,
+    /// seg = 6: every transport read delivers exactly this many bytes (if available): on a long pre-filled
+    /// stream the reads keep ending in the middle of a frame for many kilobytes
+    pub chunk: usize,
+    /// frames the peer sends in one go while the reader is blocked (0 = small random bursts)
+    pub burst: usize,
 }
 
 #[derive(Debug)]
@@ -67,6 +72,7 @@ pub struct Shared {
     pub rng: StdRng,
     pub rcfg: RandomCfg,
     pub in_user_write: bool,
+    pub eof_reads: usize,
 }
 
 impl std::fmt::Debug for Pool {
@@ -97,6 +103,7 @@ impl Shared {
             rng: StdRng::seed_from_u64(seed),
             rcfg,
             in_user_write: false,
+            eof_reads: 0,
         }
     }
 
@@ -216,7 +223,15 @@ impl Shared {
                 self.i += 1;
                 Err(io::Error::new(io::ErrorKind::ConnectionReset, "scripted transient error"))
             },
-            "result" if st.s == "disconnected" => Ok(0),
+            "result" if st.s == "disconnected" => {
+                // end of stream: a connection that keeps reading instead of reporting it would spin for ever
+                self.eof_reads += 1;
+                if self.eof_reads > 3 {
+                    self.fail("the code keeps reading from the transport after it reported end of stream".into());
+                    return Err(io::Error::new(io::ErrorKind::Other, "conformance-abort"));
+                }
+                Ok(0)
+            },
             "pend" if is_async && st.s == "r" => {
                 self.i += 1;
                 Err(io::Error::new(io::ErrorKind::WouldBlock, "pending"))
@@ -304,12 +319,12 @@ impl Shared {
             }
             return;
         }
-        let burst = match self.rng.gen_range(0..4) {
+        let burst = if self.rcfg.burst > 0 { self.rcfg.burst } else { match self.rng.gen_range(0..4) {
             0 => 1,
             1 => 2,
             2 => self.rng.gen_range(1..6),
             _ => self.rng.gen_range(1..20),
-        };
+        } };
         for _ in 0..burst {
             if self.rcfg.frames_left == 0 {
                 break;
@@ -373,6 +388,11 @@ impl Shared {
         }
         if self.incoming.is_empty() {
             if self.eof {
+                self.eof_reads += 1;
+                if self.eof_reads > 3 {
+                    self.ev(json!({"ev": "Spin", "why": "the code keeps reading after end of stream"}));
+                    return Err(io::Error::new(io::ErrorKind::Other, "conformance-abort"));
+                }
                 self.ev(json!({"ev": "TRead", "kind": "eof", "offered": offered, "got": 0}));
                 return Ok(0);
             }
@@ -381,6 +401,11 @@ impl Shared {
             self.ev(json!({"ev": "TRead", "kind": "err", "offered": offered, "got": 0}));
             return Err(io::Error::new(io::ErrorKind::ConnectionReset, "scripted transient error"));
         }
+        if offered == 0 {
+            // the connection handed the transport no room at all: a real stream would report 0 bytes read
+            self.ev(json!({"ev": "TRead", "kind": "data", "offered": 0, "got": 0}));
+            return Ok(0);
+        }
         let avail = self.incoming.len().min(offered);
         let seg = if self.rcfg.seg == 5 { self.rng.gen_range(0..5) } else { self.rcfg.seg };
         let n = match seg {
@@ -388,6 +413,7 @@ impl Shared {
             1 => self.rng.gen_range(1..=3.min(avail)),
             2 => self.rng.gen_range(1..=17.min(avail)),
             3 => self.rng.gen_range(1..=avail),
+            6 => self.rcfg.chunk.max(1),
             _ => avail,
         }
         .min(avail)
@@ -596,7 +622,7 @@ pub fn parse_steps(v: &Value) -> Vec<Step> {
 }
 
 fn nocfg() -> RandomCfg {
-    RandomCfg { seg: 4, p_err: 0.0, p_pend: 0.0, wseg: 2, frames_left: 0, max_len: 0, classes: vec![], close_at_end: false, fixed: None }
+    RandomCfg { seg: 4, p_err: 0.0, p_pend: 0.0, wseg: 2, frames_left: 0, max_len: 0, classes: vec![], close_at_end: false, fixed: None, chunk: 0, burst: 0 }
 }
 
 /// a user packet of the given encoded length
@@ -880,6 +906,8 @@ pub struct TraceCfg {
     pub fixed: Option<VecDeque<(Vec<u8>, String)>>,
     pub seg: Option<u8>,
     pub p_err: Option<f64>,
+    /// > 0: long pre-filled stream read in fixed-size pieces (seg 6)
+    pub chunk: usize,
 }
 
 fn result_event(o: &Outcome) -> Value {
@@ -909,6 +937,8 @@ fn random_cfg(rng: &mut StdRng, tc: &TraceCfg) -> RandomCfg {
         classes,
         close_at_end: true,
         fixed: tc.fixed.clone(),
+        chunk: tc.chunk,
+        burst: if tc.chunk > 0 { 400 } else { 0 },
     }
 }
 
@@ -1143,6 +1173,7 @@ pub fn sweep(what: &str, seed: u64, per: usize, half: bool) -> (Vec<Value>, Valu
                         fixed: Some(chunk.iter().cloned().collect()),
                         seg: Some(5),
                         p_err: Some(0.0),
+                        chunk: 0,
                     };
                     let evs = if flavor == "blocking" { trace_blocking(pool.clone(), &tc) } else { trace_tokio(pool.clone(), &tc) };
                     events.extend(evs);
